@@ -15,6 +15,7 @@ pub mod c15;
 pub mod c16;
 pub mod c17;
 pub mod c18;
+pub mod c19;
 
 use crate::runner::DynProp;
 
@@ -35,6 +36,7 @@ pub fn all() -> Vec<Box<dyn DynProp>> {
         Box::new(c16::C16::default()),
         Box::new(c17::C17),
         Box::new(c18::C18),
+        Box::new(c19::C19),
     ]
 }
 
